@@ -326,7 +326,7 @@ def run_model(lines, timeout=3600):
 
 def run_lines(exe, lines, timeout=3600, env=None, args=()):
     p = subprocess.run([exe] + list(args), input="\n".join(lines) + "\n", stdout=subprocess.PIPE,
-                       stderr=subprocess.PIPE, text=True, timeout=timeout, env=env)
+                       stderr=subprocess.PIPE, text=True, errors="replace", timeout=timeout, env=env)
     out = p.stdout.split("\n")
     if out and out[-1] == "":
         out = out[:-1]
